@@ -30,6 +30,11 @@ type c18Case struct {
 const c18MaxAllocs = 8
 
 func c18Request(kind, field string, size int) vlib.Req {
+	if base, attr, ok := strings.Cut(kind, "@"); ok {
+		r := c18Request(base, field, size)
+		r.Attr = attr
+		return r
+	}
 	h := map[string][]string{}
 	method := "GET"
 	switch kind {
@@ -265,13 +270,13 @@ func checkC18(c *vlib.Ctx) (string, string) {
 	hist := map[string]int{}
 	for li, l := range cfgs {
 		for di, dbg := range []bool{false, true} {
-			for _, route := range []int{0, 2 + (li*2+di)%10} { // a fresh middleware and one other construction route per cell
+			for _, route := range []int{0, 2 + (li*2+di)%12} { // a fresh middleware and one other construction route per cell
 				h, err := c18Build(l, dbg, route)
 				if err != nil {
 					ck.Report(c18Case{Cfg: l, Route: route}, vlib.Failf("configuration of the C18 alphabet rejected: %v", err))
 					return levelMC, rule
 				}
-				for _, kp := range []string{"preflight", "actual", "noncors", "preflight+preset", "actual+preset", "preflight-get"} {
+				for _, kp := range []string{"preflight", "actual", "noncors", "preflight+preset", "actual+preset", "preflight-get", "preflight@h2", "preflight@h3", "preflight@tls", "actual@h2"} {
 					kind, presetSfx, _ := strings.Cut(kp, "+")
 					preset := presetSfx != ""
 					for _, f := range fields {
